@@ -458,9 +458,14 @@ def announce_family(max_len=3):
                                                                   {"Content-Type": "application/llsd+xml"})
                 w.em._handle_response(flow)
                 parsed = llsd.parse_xml(flow.response.content)
-                if [e["message"] for e in parsed["events"]] != [e["message"] for e in evs]:
-                    viols.append({"clause": "region-announcing events are forwarded unchanged", "class": "announce-events-changed",
-                                  "announcements": names})
+                sent_xml = [llsd.format_xml(x[2]) for x in seq]          # the events as the simulator sent them (pristine copies)
+                got_xml = [llsd.format_xml(e) for e in parsed["events"]]
+                if got_xml != sent_xml:
+                    k = next((j for j in range(min(len(got_xml), len(sent_xml))) if got_xml[j] != sent_xml[j]), min(len(got_xml), len(sent_xml)))
+                    viols.append({"clause": "every event the simulator sends is delivered to the viewer unchanged (same LLSD value and types)",
+                                  "class": "announce-events-changed", "announcements": names,
+                                  "sent": sent_xml[k].decode("utf8", "replace")[:300] if k < len(sent_xml) else None,
+                                  "got": got_xml[k].decode("utf8", "replace")[:300] if k < len(got_xml) else None})
                 addrs = [r.circuit_addr for r in w.session.regions]
                 want = list(before)
                 for _, p, _e in seq:
